@@ -32,6 +32,12 @@ type c08KNO struct {
 	K string `json:",omitempty"`
 }
 
+// the key as a field PROMOTED from an embedded struct (no field of the outer struct is renamed by a tag)
+type c08Emb struct {
+	c08KN
+	Other int
+}
+
 type c08Case struct {
 	Theme, DataYml, FM bool
 	FMOther            bool     // without FM: the page still HAS a front-matter block, which does not define the key
@@ -105,6 +111,12 @@ func c08Eval(cs c08Case) *Case {
 			var d any
 			if key == "k" || cs.Tagged {
 				s := c08KS{K: v}
+				d = s
+				if call == "fill-ptr" {
+					d = &s
+				}
+			} else if len(cs.Calls)%2 == 0 {
+				s := c08Emb{c08KN: c08KN{K: v}, Other: 1}
 				d = s
 				if call == "fill-ptr" {
 					d = &s
